@@ -10,7 +10,7 @@ res=$d/confirm.txt; : > $res
 timeout 600 /venv/bin/python $d/demo.py > $d/demo_without.log 2>&1; echo "demo_without_change_exit=$?" >> $res
 git apply $d/patch.diff || { echo "patch_does_not_apply" >> $res; cd /; git -C /repo worktree remove --force $wt; exit 2; }
 timeout 600 /venv/bin/python $d/demo.py > $d/demo_with.log 2>&1; echo "demo_with_change_exit=$?" >> $res
-/venv/bin/python -m pytest -q -p no:cacheprovider --timeout=900 --deselect tests/unit/test_nonadiabatic_checkpoint_resume.py::test_nonadiabatic_checkpoint_resume_surface_hopping > $d/suite_with.log 2>&1
+/venv/bin/python -m pytest -q -p no:cacheprovider --timeout=900 > $d/suite_with.log 2>&1
 tail -1 $d/suite_with.log >> $res
 grep -c "^FAILED" $d/suite_with.log >> $res
 grep "^FAILED" $d/suite_with.log >> $res
